@@ -206,7 +206,8 @@ func runScenario(c *ShardCtx, sc scenario, mode string, bound int) {
 		panic(&core.HarnessError{Msg: fmt.Sprintf("scenario %s: default schedule is not reproducible (%v %v, %d vs %d points)", sc.Name, err1, err2, len(x1.Points), len(x2.Points))})
 	}
 	ex := &sched.Explorer{Bound: bound, Prune: mode == "A"}
-	ex.Stop = func() bool { return c.Expired("scenario " + sc.Name + " mode " + mode) }
+	polluted := false
+	ex.Stop = func() bool { return polluted || c.Expired("scenario "+sc.Name+" mode "+mode) }
 	ex.RunOne = func(prefix []int) (*sched.Execution, bool) {
 		x, diffs, err := execOnce(prefix)
 		c.Res.Evaluations++
@@ -220,7 +221,18 @@ func runScenario(c *ShardCtx, sc scenario, mode string, bound int) {
 			// re-run the schedule: the same schedule must fail every time
 			_, again, _ := execOnce(prefix)
 			if fmt.Sprint(again) != fmt.Sprint(diffs) {
-				panic(&core.HarnessError{Msg: fmt.Sprintf("scenario %s schedule %v fails irreproducibly", sc.Name, prefix)})
+				// the one legitimate reason for a schedule to fail differently the second time: the
+				// execution CHANGED the shared grammar value (that is a violation by itself, and
+				// every later execution of the scenario starts from another g)
+				gmod := false
+				for _, d := range append(append([]string{}, diffs...), again...) {
+					gmod = gmod || strings.Contains(d, "shared grammar value g was modified")
+				}
+				if !gmod {
+					panic(&core.HarnessError{Msg: fmt.Sprintf("scenario %s schedule %v fails irreproducibly", sc.Name, prefix)})
+				}
+				diffs = append([]string{"the shared grammar value g was modified by a parse (later executions of this schedule give other results)"}, diffs...)
+				polluted = true
 			}
 			if firstBad == nil {
 				firstBad = &Violation{Desc: fmt.Sprintf("scenario %s mode %s: %s", sc.Name, mode, diffs[0]), Grammar: text, Gen: sc.Gen.String(), Opts: fmt.Sprintf("schedule (choice list) %v", prefix), Diffs: diffs,
